@@ -479,7 +479,7 @@ func (ex *Exec) dependsOn(bytes, v Value) bool {
 var redirects = map[string]string{
 	"os.Stat": "GfsStat", "os.Lstat": "GfsStat", "os.IsNotExist": "GfsIsNotExist", "os.IsExist": "GfsIsExist",
 	"os.Mkdir": "GfsMkdir", "os.MkdirAll": "GfsMkdirAll", "os.OpenFile": "GfsOpenFile", "os.Open": "GfsOpen", "os.Create": "GfsCreate",
-	"os.Remove": "GfsRemove", "os.Rename": "GfsRename", "os.ReadFile": "GfsReadFile", "os.WriteFile": "GfsWriteFile", "os.Chtimes": "GfsChtimes",
+	"os.Remove": "GfsRemove", "os.CreateTemp": "GfsCreateTemp", "io/ioutil.TempFile": "GfsCreateTemp", "os.Rename": "GfsRename", "os.ReadFile": "GfsReadFile", "os.WriteFile": "GfsWriteFile", "os.Chtimes": "GfsChtimes", "os.Chmod": "GfsChmod", "(*os.File).Chmod": "GFile.Chmod",
 	"io/ioutil.ReadDir": "GfsReadDir", "io/ioutil.ReadFile": "GfsReadFile", "io/ioutil.WriteFile": "GfsWriteFile",
 	"(*os.File).Name": "GFile.Name", "(*os.File).Write": "GFile.Write", "(*os.File).WriteString": "GFile.WriteString", "(*os.File).Read": "GFile.Read",
 	"(*os.File).ReadAt": "GFile.ReadAt", "(*os.File).Seek": "GFile.Seek", "(*os.File).Truncate": "GFile.Truncate", "(*os.File).Sync": "GFile.Sync",
